@@ -29,12 +29,16 @@ Moduli ==
      <<"large3-even", [i \in 1..20 |-> IF i = 1 THEN 0 ELSE IF i = 20 THEN 5 ELSE Lcg8(i, Seed)]>>,
      \* top bit set and nothing else but a low one: no normalisation shift, and the smallest modulus of its length,
      \* so that products of short operands exceed it (the conditional subtraction of the short-product path)
+     \* a modulus that IS a product of short all-ones factors (the product of those residues equals m exactly), and a
+     \* modulus sharing the multi-word factor 2^64 + 1 (lowest word 1) with the operands of shape 14
+     <<"large3-prod", Mul(Sub(PowerOfTwo(64), One), Sub(PowerOfTwo(128), One))>>,
+     <<"large4-g", Mul(Add(PowerOfTwo(64), One), Dense(16, Seed + 8, 251))>>,
      <<"large3-min", Add(PowerOfTwo(191), One)>>, <<"large5-min", Add(PowerOfTwo(319), NN(12345))>>,
      <<"large7", Dense(55, Seed + 4, 37)>>, <<"large12-mersenne", Sub(PowerOfTwo(607), One)>>,
      <<"large25", Dense(200, Seed + 5, 129)>>, <<"large40", Dense(317, Seed + 6, 3)>> >>
 NMod == IF Big THEN Len(Moduli) ELSE Len(Moduli) - 2
 Ops == <<"reduce", "add", "sub", "mul", "div", "neg", "dbl", "sqr", "pow", "inv", "mix">>
-NShapes == 12
+NShapes == 14
 
 VARIABLES phase, p1, p2, p3
 vars == <<phase, p1, p2, p3>>
@@ -67,6 +71,10 @@ Case ==
               \* divided, only compared with m (shapes 11: all ones, 12: dense with a high top byte)
               [] p3 = 11 -> LET i == Max2(1, (2 * nb) \div 3) IN <<U(Sub(ShlBytes(One, i), One)), U(Sub(ShlBytes(One, Max2(1, nb - i)), One))>>
               [] p3 = 12 -> LET i == Max2(1, nb \div 3) IN <<U(Dense(i, Salt + 6, 255)), U(Dense(Max2(1, nb - i), Salt + 7, 250))>>
+              \* 13: all-ones of one third and two thirds of the length (for "large3-prod": the factors of m, product = m exactly)
+              [] p3 = 13 -> LET i == Max2(1, nb \div 3) IN <<U(Sub(ShlBytes(One, i), One)), U(Sub(ShlBytes(One, Max2(1, nb - i)), One))>>
+              \* 14: multiples of 2^64 + 1 and 2^128 + 1: a gcd with the modulus that has several words and lowest word 1
+              [] p3 = 14 -> <<U(Mul(Add(PowerOfTwo(64), One), Dense(12, Salt + 9, 201))), U(Mul(Add(PowerOfTwo(128), One), w))>>
       \* exponents: 0, 1, 2, 3, 2^16 + 1, one word, two words, three words (short for long moduli)
       ecap == IF nb <= 16 THEN 24 ELSE IF nb <= 60 THEN 12 ELSE 3
       e == CASE p3 = 1 -> <<>>
@@ -81,6 +89,8 @@ Case ==
              [] p3 = 10 -> PowerOfTwo(Min2(64, 8 * ecap - 1))
              [] p3 = 11 -> NN(5)
              [] p3 = 12 -> NN(6)
+             [] p3 = 13 -> NN(7)
+             [] p3 = 14 -> NN(2)
       m2 == IF p3 % 2 = 0 THEN m ELSE Moduli[1 + ((p1 + p3) % NMod)][2]
   IN [fam |-> name, shape |-> p3, op |-> op, m |-> mi, a |-> ab[1], b |-> ab[2], e |-> U(IF op = "pow" THEN e ELSE <<>>), m2 |-> U(m2)]
 
